@@ -1,15 +1,24 @@
 #!/bin/bash
-# usage: mut.sh <ID> <file-in-repo> <python-expr old> <new>   -- applies a textual mutation to /repo, runs the quick check, reverts
-ID=$1; F=$2; OLD=$3; NEW=$4
-cd /repo || exit 2
-git diff --quiet || { echo "repo dirty"; exit 2; }
-python3 - "$F" "$OLD" "$NEW" <<'P' || exit 2
+# usage: mut.sh <ID> <file-in-repo> <old text> <new text> [tier]
+#    or: mut.sh <ID> --patch <patch.diff> [tier]
+# Applies a mutation to a scratch worktree of /repo (never to /repo itself), runs the
+# check against it (VERIF_REPO) and removes the worktree. Safe to run in parallel.
+ID=$1
+W=/var/tmp/verif-scratch-$$-$RANDOM
+git -C /repo worktree add -q --detach "$W" HEAD || exit 2
+trap 'git -C /repo worktree remove --force "$W" >/dev/null 2>&1; rm -rf "$W" /verif/.build/*-alt-*$(basename $W)*' EXIT
+if [ "$2" = "--patch" ]; then
+  git -C "$W" apply "$3" || { echo "patch does not apply"; exit 2; }
+  TIER=${4:-quick}
+else
+  python3 - "$W/$2" "$3" "$4" <<'P' || exit 2
 import sys
 f,old,new=sys.argv[1:4]
 s=open(f).read()
 assert s.count(old)>=1,"pattern not found"
 open(f,'w').write(s.replace(old,new,1))
 P
-(cd /repo && GOFLAGS=-mod=mod GOPROXY=off go build ./... ) || echo "MUTANT DOES NOT BUILD"
-cd /verif && ./check $ID quick 2>&1 | cut -c1-260 | grep -v '^KNOWN' | head -${LINES_MAX:-4}
-cd /repo && git checkout -- .
+  TIER=${5:-quick}
+fi
+(cd "$W" && GOFLAGS=-mod=mod GOPROXY=off go build ./... ) || echo "MUTANT DOES NOT BUILD"
+cd /verif && VERIF_REPO="$W" ./check $ID $TIER 2>&1 | cut -c1-300 | grep -v '^KNOWN' | head -${LINES_MAX:-4}
